@@ -569,6 +569,29 @@ def c17(ctx: Ctx) -> None:
                 ctx.check('C17-R2', f'{where_}: {norm(n.ast)}', gc.loc(n), okl,
                           f'inside `with _get_loop_lock({recv})`', 'a loop can be run by two threads at once (no per-loop lock around running it)',
                           construct=construct_key(host.qualname, 'run without lock', n.ast.func.attr))
+    # ... and the per-loop lock is held for nothing else: every region that takes it (anywhere in the module) runs that loop inside
+    # and does not suspend - a generator that yields, or a coroutine that awaits, while holding it keeps every ensure_aw /
+    # loop_in_thread call for that loop waiting for as long as its consumer likes
+    uA2 = p.unit(A)
+    for fsc in uA2.functions():
+        for w_ in [x for x in own_nodes(fsc.node) if isinstance(x, (ast.With, ast.AsyncWith))]:
+            for it_ in w_.items:
+                ce_ = it_.context_expr
+                if isinstance(ce_, ast.Call) and isinstance(ce_.func, ast.Name) and ce_.func.id == '_get_loop_lock' and ce_.args:
+                    lp_ = norm(ce_.args[0])
+                    inside = [x for st_ in w_.body for x in ast.walk(st_)]
+                    nested_ids = {id(y) for x in inside if isinstance(x, (ast.FunctionDef, ast.AsyncFunctionDef, ast.Lambda)) for y in ast.walk(x) if y is not x}
+                    own_in = [x for x in inside if id(x) not in nested_ids]
+                    runs_in = [x for x in own_in if isinstance(x, ast.Call) and isinstance(x.func, ast.Attribute) and x.func.attr in ('run_until_complete', 'run_forever')
+                               and norm(x.func.value) == lp_]
+                    susp = [x for x in own_in if isinstance(x, (ast.Yield, ast.YieldFrom, ast.Await))]
+                    if any((dotted(d_) or '').split('.')[-1] in ('contextmanager', 'asynccontextmanager') for d_ in fsc.decorators):
+                        susp = []       # the yield of a context manager is the with-body of its user, checked where it is used
+                    ctx.check('C17-R2', f'{fsc.qualname}: `with _get_loop_lock({lp_})` does not suspend', f'{A}:{w_.lineno}',
+                              not susp, 'held around the run of the loop only',
+                              'the per-loop lock is held across a suspension point (or around something that is not a run of that loop): until the holder '
+                              'is resumed and leaves the region, every call that wants to run or start this loop blocks in a pool thread while nobody runs it',
+                              construct=construct_key(fsc.qualname, 'per-loop lock held across suspension'))
     ts = p.find(A, 'to_sync_iter')
     if ts is not None and any(isinstance(x, ast.Attribute) and x.attr == 'run_until_complete' for x in ast.walk(ts.node)):
         ctx.note('to_sync_iter runs its loop without the per-loop lock; it is outside C17\'s helpers and normally owns a private loop')
@@ -1021,6 +1044,26 @@ def c18(ctx: Ctx) -> None:
     f = p.func(IT, 'split')
     where = f'{IT}:{f.lineno}'
     src, cond = f.params[0], f.params[1]
+    # the two streams are the caller's: `iterable` / `condition` are re-bound only to a tee copy of themselves or - the condition -
+    # to the map of the predicate over one; a wrapper put around either beforehand (a copyable view, a length clip, a "checked"
+    # predicate that is tried once on the first element) changes what is read, how often, or when
+    gs_ = build(f, p)
+    for prm_, rid_ in ((src, 'C18-R3'), (cond, 'C18-R2')):
+        for st_ in [n for n in gs_.nodes if n.kind == 'store_name' and n.meta['name'] == prm_ and not n.meta.get('inlined_param')]:
+            stm_ = st_.meta.get('stmt')
+            v_ = stm_.value if isinstance(stm_, (ast.Assign, ast.AnnAssign)) else st_.meta.get('value')
+            okv_ = False
+            if isinstance(v_, ast.Call):
+                fnm_ = gs_.res.path(v_.func) or norm(v_.func)
+                if fnm_ == 'itertools.tee' and v_.args and isinstance(v_.args[0], ast.Name) and v_.args[0].id == prm_:
+                    okv_ = True
+                if fnm_ in ('builtins.map', 'map') and prm_ == cond and len(v_.args) == 2 and isinstance(v_.args[0], ast.Name) and v_.args[0].id == cond:
+                    okv_ = True
+            ctx.check(rid_, f'split: `{prm_}` re-bound to {norm(v_)[:60] if v_ is not None else None}', gs_.loc(st_), okv_,
+                      'a tee copy of itself / the predicate mapped over a private copy',
+                      f'`{prm_}` is replaced by something built around it before the streams are forked: the results no longer read the caller\'s '
+                      f'{"source" if prm_ == src else "condition"} as given (elements can be shared between copies, cut off, or the predicate run an extra time)',
+                      construct=construct_key('split', 'parameter wrapped', prm_, v_))
     results = _affine_paths(f, p)
     for facts, ret, vals, problems in results:
         inst = f'path {facts}'
